@@ -6,6 +6,8 @@ package sim
 
 import (
 	"reflect"
+	"sort"
+	"strings"
 	"testing"
 	"time"
 )
@@ -90,6 +92,49 @@ func Minimise(t *testing.T, def *CheckDef, plan *Plan, class string, deadline ti
 				return true
 			}) {
 				changed = true
+			}
+		}
+		// disk slice: drop disk faults, then files the violation does not need
+		if cur.Disk != nil {
+			for fi := len(cur.Disk.Faults) - 1; fi >= 0; fi-- {
+				fi := fi
+				if try(func(p *Plan) bool {
+					if fi >= len(p.Disk.Faults) {
+						return false
+					}
+					fs := p.Disk.Faults
+					p.Disk.Faults = append(fs[:fi:fi], fs[fi+1:]...)
+					return true
+				}) {
+					changed = true
+				}
+			}
+			var names []string
+			for n := range cur.Disk.Files {
+				names = append(names, n)
+			}
+			sort.Strings(names)
+			for _, n := range names {
+				n := n
+				// (removing files is itself damage: only while hunting a crash or hang, never for the intact-input clause)
+				if n == "Chart.yaml" || !(strings.HasSuffix(class, "/no-panic") || strings.HasSuffix(class, "/no-hang")) {
+					continue
+				}
+				if try(func(p *Plan) bool {
+					if _, ok := p.Disk.Files[n]; !ok {
+						return false
+					}
+					delete(p.Disk.Files, n)
+					delete(p.Disk.Alt, n)
+					return true
+				}) {
+					changed = true
+				}
+			}
+			if cur.Disk.Plugin != "" {
+				if try(func(p *Plan) bool { p.Disk.Plugin = ""; return true }) {
+					changed = true
+				}
 			}
 		}
 		// drop faults
